@@ -93,7 +93,7 @@ func jobs(id, tier string) []job {
 		opt.Reshape, opt.BulkPairs, opt.Writes = true, true, true
 		backends = map[string]bool{"c": true}
 		if tier == "quick" {
-			plans = []plan{{[]int{6}, 2}, {[]int{3, 4}, 1}, {[]int{2, 3, 2}, 1}}
+			plans = []plan{{[]int{6}, 2}, {[]int{3, 4}, 2}, {[]int{2, 3, 2}, 1}}
 		} else {
 			plans = []plan{{[]int{6}, 3}, {[]int{3, 4}, 2}, {[]int{2, 3, 4}, 1}, {[]int{2, 2, 2, 3}, 1}}
 		}
